@@ -690,3 +690,44 @@ Proof.
   cbn [ret fst snd ctx set_heap heap fresh_namespace set_frames set_scr set_nsd].
   repeat split. eapply nth_error_list_upd; eauto.
 Qed.
+
+(** * Imports *)
+Lemma mem_app_r x l y : mem x l = true -> mem x (l ++ [y]) = true.
+Proof. induction l as [|a r IH]; simpl; [discriminate|]. destruct (String.eqb x a); simpl; auto. Qed.
+
+Lemma mem_app_last x l : mem x (l ++ [x]) = true.
+Proof. induction l as [|a r IH]; simpl; [now rewrite String.eqb_refl|]. rewrite IH. apply orb_true_r. Qed.
+
+(** a successful import of a chain leaves every module of the chain (and everything imported
+    before) in sys.modules *)
+Lemma load_chain_loaded mt ms : forall ld ld',
+  load_chain mt ms ld = (true, ld') ->
+  (forall x, In x ms -> mem x ld' = true) /\ (forall x, mem x ld = true -> mem x ld' = true).
+Proof.
+  induction ms as [|m r IH]; intros ld ld' H; simpl in H.
+  - inversion H; subst. split; [intros x []|auto].
+  - destruct (mod_get m mt); [|discriminate].
+    apply IH in H. destruct H as [H1 H2]. split.
+    + intros x [->|Hx]; [|auto]. apply H2.
+      destruct (mem x ld) eqn:E; [assumption|apply mem_app_last].
+    + intros x Hx. apply H2. destruct (mem m ld); [assumption|apply mem_app_r; assumption].
+Qed.
+
+(** an imported submodule is reachable as an attribute of its package *)
+Lemma mod_attr_submodule mt ld m a attrs sub :
+  mod_get m mt = Some attrs -> a <> "<self>" -> ns_get a attrs = None ->
+  mod_get (m ++ "." ++ a)%string mt = Some sub -> mem (m ++ "." ++ a)%string ld = true ->
+  mod_attr mt ld m a = Some (mod_value mt (m ++ "." ++ a)%string).
+Proof.
+  intros H N A S L. unfold mod_attr. rewrite H. apply String.eqb_neq in N. rewrite N, A, S, L. reflexivity.
+Qed.
+
+(** and a submodule that was never imported is not *)
+Lemma mod_attr_not_imported mt ld m a attrs :
+  mod_get m mt = Some attrs -> ns_get a attrs = None -> mem (m ++ "." ++ a)%string ld = false ->
+  mod_attr mt ld m a = None.
+Proof.
+  intros H A L. unfold mod_attr. rewrite H, A, L.
+  destruct (String.eqb a "<self>"); [reflexivity|].
+  destruct (mod_get (m ++ "." ++ a)%string mt); reflexivity.
+Qed.
